@@ -18,13 +18,15 @@ INT_SPECIALS = [0, 1, 2, 255, 256, 65535, 65536, 1 << 24, (1 << 31) - 1, -1, -2,
 TYPE_CODES = b"0NS.FTilIfgxysAazZtu)([<>{Rcr?"
 CONTAINER_CODES = b"([)<>{"
 
-FAULT_KINDS = ["crash_prefix", "torn_write", "bit_rot", "extent", "adversarial_field", "header", "nesting_bomb"]
+FAULT_KINDS = ["crash_prefix", "torn_write", "bit_rot", "extent", "adversarial_field", "header", "nesting_bomb",
+               "object_graft"]
 
 
 class FaultCtx:
-    def __init__(self, base, others, readmap, magics):
+    def __init__(self, base, others, readmap, magics, others_readmaps=None):
         self.base = base  # bytes of the intended file
         self.others = others  # list of bytes: other files that once lived on the medium
+        self.others_rm1 = [[o for o, n in rm if n == 1] for rm in (others_readmaps or [])]
         self.readmap = readmap  # [(offset, size)] of the fault-free load of base
         self.magics = magics  # sorted list of known magic ints
         self.rm1 = [o for o, n in readmap if n == 1]
@@ -325,6 +327,38 @@ def f_nesting_bomb(rng, img, ctx):
     return out, {"kind": "nesting_bomb", "at": at, "depth": depth, "shape": shape, "keep_tail": mode == 0}
 
 
+# 8 ---------------------------------------------------- misdirected write at object granularity
+def f_object_graft(rng, img, ctx):
+    """A marshalled sub-object of another file (possibly of another Python version) lands where an object of this
+    file starts: the parser keeps meeting well-formed objects, but of the wrong kind, version or reference context."""
+    n = len(img)
+    if n < 24 or not ctx.others or not ctx.others_rm1:
+        return None
+    oi = rng.below(min(len(ctx.others), len(ctx.others_rm1)))
+    other = ctx.others[oi]
+    orm = [o for o in ctx.others_rm1[oi] if 8 <= o < len(other)]
+    mine = [o for o in ctx.rm1 if 8 <= o < n]
+    if not orm or not mine:
+        return None
+    a = rng.choice(mine)
+    b = rng.choice(orm)
+    mode = rng.choice(["tail", "mid", "mid"])
+    if mode == "tail":
+        out = img[:a] + other[b:]
+        d = {"mode": mode, "at": a, "other": oi, "other_at": b}
+    else:
+        later_b = [o for o in orm if o > b]
+        later_a = [o for o in mine if o > a]
+        e = rng.choice(later_b[:8]) if later_b else len(other)
+        a2 = rng.choice(later_a[:8]) if later_a else n
+        out = img[:a] + other[b:e] + img[a2:]
+        d = {"mode": mode, "at": a, "resume_at": a2, "other": oi, "other_at": b, "other_end": e}
+    if out == img:
+        return None
+    d["kind"] = "object_graft"
+    return out[: 64 * 1024], d
+
+
 def core_max_insert(n):
     return max(0, 64 * 1024 - n)
 
@@ -337,6 +371,7 @@ _FUNCS = {
     "adversarial_field": f_adversarial_field,
     "header": f_header,
     "nesting_bomb": f_nesting_bomb,
+    "object_graft": f_object_graft,
 }
 
 
